@@ -118,16 +118,39 @@ func Check_Schedule() {
 	}
 	nkeys = sx.Param("keys", nkeys)
 	k = sx.Param("k", k)
+	schedule(nkeys, k, nil)
+}
+
+// Check_ScheduleAfterLifetime: the same exploration one level deeper for the
+// schedules that matter most: they start with a template for the first key and
+// an arbitrary amount of time passing, then 5 (quick) / 6 (thorough) free events.
+func Check_ScheduleAfterLifetime() {
+	k := 6
+	if sx.Tier() > 0 {
+		k = 7
+	}
+	schedule(2, sx.Param("k", k), []int{0, 3})
+}
+
+func schedule(nkeys, k int, forced []int) {
 	clk := &vclock{base: time.Now()}
 	cp, err := collector.VerifNewCollectingProcess(collector.CollectorInput{Protocol: "udp", Address: "x", TemplateTTL: ttlSeconds}, clk, 16)
 	sx.Assert(err == nil, "init")
 	g := make([]ghost, nkeys)
 
 	for step := 0; step < k; step++ {
-		ev := sx.Choose("event", 6)
+		var ev int
+		if step < len(forced) {
+			ev = forced[step]
+		} else {
+			ev = sx.Choose("event", 6)
+		}
 		switch ev {
 		case 0: // template (first transmission, refresh or replacement)
-			ki := sx.Choose("key", nkeys)
+			ki := 0
+			if step >= len(forced) {
+				ki = sx.Choose("key", nkeys)
+			}
 			clk.curKey = ki
 			_, err := cp.VerifDecodePacket(templatePkt(keys[ki]), "1.2.3.4:5")
 			sx.Assert(err == nil, "template-refused")
@@ -246,5 +269,6 @@ func Check_Schedule() {
 }
 
 var Table = map[string]runner.Entry{
-	"Check_Schedule": {Setup: Setup, Fn: Check_Schedule},
+	"Check_Schedule":              {Setup: Setup, Fn: Check_Schedule},
+	"Check_ScheduleAfterLifetime": {Setup: Setup, Fn: Check_ScheduleAfterLifetime},
 }
